@@ -1,68 +1,11 @@
 #![allow(dead_code)]
 //! `vp check <ID> [--tier quick|thorough]` and `vp replay <file>`.
 
-mod core;
-mod model;
-mod registry;
-
-mod c01;
-mod c01b;
-mod c02;
-mod e3;
-mod c03;
-mod e2;
-mod store;
-mod c04;
-mod c05;
-mod c06;
-mod c07;
-mod c08;
-mod c08c;
-mod c09;
-mod replicas;
-mod c10;
-mod c11;
-mod c12;
-mod c12e;
-mod c13;
-mod c14;
-mod c15;
-mod c16;
-mod c17;
-mod c18;
-mod c19;
-mod msgs;
+use vp::{c17, parts_for};
 
 use std::process::exit;
 
-use crate::core::{install_quiet_panic_hook, load_known_findings, Report, RunCfg};
-use crate::registry::DynPart;
-
-fn parts_for(id: &str) -> Option<(&'static str, Vec<Box<dyn DynPart>>, Vec<String>)> {
-    let none: Vec<String> = vec![];
-    Some(match id {
-        "C01" => ("C01", { let mut p = c01b::parts(); p.extend(c01::parts()); p }, none),
-        "C02" => ("C02", c02::parts_all(), none),
-        "C03" => ("C03", c03::parts(), none),
-        "C04" => ("C04", c04::parts(), none),
-        "C05" => ("C05", c05::parts(), none),
-        "C06" => ("C06", c06::parts_all(), none),
-        "C07" => ("C07", c07::parts_all(), none),
-        "C08" => ("C08", { let mut p = c08::parts(); p.extend(c08c::parts()); p }, none),
-        "C09" => ("C09", c09::parts(), none),
-        "C10" => ("C10", c10::parts(), none),
-        "C11" => ("C11", c11::parts(), none),
-        "C12" => ("C12", { let mut p = c12::parts(); p.extend(c12e::parts()); p }, none),
-        "C13" => ("C13", c13::parts_all(), none),
-        "C14" => ("C14", c14::parts(), none),
-        "C15" => ("C15", c15::parts_all(), none),
-        "C16" => ("C16", c16::parts(), none),
-        "C17" => ("C17", c17::parts(), none),
-        "C18" => ("C18", c18::parts_all(), none),
-        "C19" => ("C19", c19::parts(), none),
-        _ => return None,
-    })
-}
+use vp::core::{install_quiet_panic_hook, load_known_findings, Report, RunCfg};
 
 fn usage() -> ! {
     eprintln!("usage: vp check <ID> [--tier quick|thorough] [--part NAME] | vp replay <file> [--strict]");
@@ -83,10 +26,10 @@ fn main() {
     }
     match args[1].as_str() {
         "check" if !args.iter().any(|a| a == "--worker") => {
-            exit(crate::core::supervise(&args));
+            exit(vp::core::supervise(&args));
         },
         "replay" if !args.iter().any(|a| a == "--worker") => {
-            exit(crate::core::supervise_replay(&args));
+            exit(vp::core::supervise_replay(&args));
         },
         "check" => {
             let id = args[2].as_str();
@@ -143,7 +86,7 @@ fn main() {
                 let r = p.run(&cfg, &known);
                 if std::env::var("VP_SHARD").is_ok() {
                     // a shard child of a process-isolated part: hand the result to the parent
-                    println!("VP_SHARD_RESULT {}", crate::core::part_result_to_json(&r));
+                    println!("VP_SHARD_RESULT {}", vp::core::part_result_to_json(&r));
                     exit(0);
                 }
                 let failed = r.failure.is_some();
@@ -229,6 +172,14 @@ fn main() {
                     exit(1)
                 },
             }
+        },
+        "corpus" => {
+            // vp corpus <ID> <part> <dir> <n>: seed corpus for the coverage-guided engine
+            let n = args.get(5).and_then(|s| s.parse().ok()).unwrap_or(200);
+            let seed = std::env::var("VERIF_SEED").ok().and_then(|s| s.trim().parse::<i128>().ok()).map(|v| v as u64).unwrap_or(0);
+            let w = vp::fuzzing::write_corpus(&args[2], &args[3], &args[4], n, seed);
+            println!("{w} seed inputs written to {}", args[4]);
+            exit(if w > 0 { 0 } else { 2 })
         },
         "describe" => {
             let v: serde_json::Value = serde_json::from_str(&std::fs::read_to_string(&args[2]).unwrap()).unwrap();
